@@ -197,7 +197,7 @@ impl Exec {
         let tb = Utc::now();
         let h = spawn_reader_thread(args.clone(), planes);
         // a reader that never returns is data too ("fails to terminate"): wait with a deadline
-        let limit_ms: u64 = std::env::var("SQV_RUN_TIMEOUT_MS").ok().and_then(|v| v.parse().ok()).unwrap_or(30000)
+        let limit_ms: u64 = std::env::var("SQV_RUN_TIMEOUT_MS").ok().and_then(|v| v.parse().ok()).unwrap_or(10000)
             + (lines.iter().map(|l| l.len() as u64).sum::<u64>() / 1000);
         let t_start = std::time::Instant::now();
         while !h.is_finished() && (t_start.elapsed().as_millis() as u64) < limit_ms {
